@@ -11,6 +11,7 @@ import (
 
 	_ "verif/engine/checks"
 	"verif/engine/mc"
+	"verif/engine/zn"
 )
 
 func main() {
@@ -55,6 +56,10 @@ func main() {
 		n, _ := strconv.Atoi(p[1])
 		mc.RunWorker(ch, *tier, *seed, k, n, *resume, *out)
 		return
+	}
+	if err := zn.SelfTest(); err != nil {
+		fmt.Println("HARNESS-ERROR the harness can no longer observe the interpreter (not a property verdict):", err)
+		os.Exit(2)
 	}
 	os.Exit(mc.RunParent(ch, *tier, *seed))
 }
